@@ -29,6 +29,8 @@ package atree
 //@      ite(is(el, *inlineCollisionGroup), 2 + elsSize(as(el, *inlineCollisionGroup).elements), as(el, *externalCollisionGroup).size))
 
 //@ iface element.Size() (n)
+//@   conform all
+//@   serves C06
 //@   ensures n == esz(recv)
 //@   pure
 
@@ -69,6 +71,8 @@ package atree
 //@   pure
 
 //@ iface element.Get(storage, digester, level, hkey, comparator, key) (k, v, err)
+//@   conform all
+//@   serves C02 C18
 //@   ensures err == nil ==> k != nil && ehas(recv, key)
 //@   ensures err != nil ==> k == nil && v == nil
 //@   ensures isKeyNotFound(err) ==> !ehas(recv, key)
@@ -76,13 +80,18 @@ package atree
 //@   pure
 
 //@ iface element.Count(storage) (n, err)
+//@   conform all
+//@   serves C12
 //@   ensures err == nil ==> n == ecount(recv)
 //@   ensures (err == nil) == countOK(recv)
+//@   ensures err != nil ==> categorised(err)
 //@   pure
 
 //@ iface element.Set(storage, address, b, digester, level, hkey, comparator, hip, key, value) (newElem, ks, existing, err)
+//@   conform all
+//@   serves C02 C05 C12
 //@   ensures err == nil ==> newElem != nil && ks != nil && (existing != nil) == old(ehas(recv, key))
-//@   ensures err != nil ==> newElem == nil
+//@   ensures err != nil ==> newElem == nil && categorised(err)
 //@   # a first-level element stays within the per-element inline limit: a value above its limit is externalised by Value.Storable,
 //@   # a first-level group above the limit is spilled into its own slab
 //@   ensures err == nil && level == 0 ==> esz(newElem) <= maxInlineMapElementSize
@@ -95,11 +104,14 @@ package atree
 //@   ensures forall id SlabID :: old(sto[id]) != nil && old(sto[id]) != valueRoot(key) && old(sto[id]) != valueRoot(value) && !inSub(recv, old(sto[id])) ==> sto[id] == old(sto[id])
 //@   ensures err == nil && is(newElem, *inlineCollisionGroup) ==> fresh(as(newElem, *inlineCollisionGroup).elements) || inSub(recv, as(newElem, *inlineCollisionGroup).elements)
 //@   modifies singleElement.*@inSub(recv), inlineCollisionGroup.*@inSub(recv), externalCollisionGroup.*@inSub(recv), hkeyElements.*@inSub(recv), singleElements.*@inSub(recv),
-//@        ghost.sto, ghost.stored, ghost.touched, alloc
+//@        ghost.sto, ghost.issued, ghost.stored, ghost.touched, alloc
 
 //@ iface element.Remove(storage, digester, level, hkey, comparator, key) (k, v, newElem, err)
+//@   conform all
+//@   serves C02 C05
 //@   ensures err == nil ==> k != nil && old(ehas(recv, key))
 //@   ensures isKeyNotFound(err) ==> !old(ehas(recv, key))
+//@   ensures err != nil ==> categorised(err)
 //@   # what is left of the element (a smaller group, or the last remaining single element of a collapsed group) is within the inline limit
 //@   ensures err == nil && newElem != nil && old(esz(recv)) <= maxInlineMapElementSize ==> esz(newElem) <= maxInlineMapElementSize
 //@   # what is left is the receiver itself (a smaller group) or the last remaining single element of a collapsed group
@@ -107,9 +119,11 @@ package atree
 //@   ensures err == nil && newElem != nil && is(newElem, *inlineCollisionGroup) ==> inSub(recv, as(newElem, *inlineCollisionGroup).elements)
 //@   ensures forall id SlabID :: old(sto[id]) != nil && !inSub(recv, old(sto[id])) ==> sto[id] == old(sto[id])
 //@   modifies singleElement.*@inSub(recv), inlineCollisionGroup.*@inSub(recv), externalCollisionGroup.*@inSub(recv), hkeyElements.*@inSub(recv), singleElements.*@inSub(recv),
-//@        ghost.sto, ghost.stored, ghost.touched, alloc
+//@        ghost.sto, ghost.issued, ghost.stored, ghost.touched, alloc
 
 //@ iface Digester.Levels() (n)
+//@   conform all
+//@   serves C02 C12
 //@   ensures n == 4 || !is(recv, *basicDigester)
 //@   pure
 
@@ -129,7 +143,7 @@ package atree
 //@        bs(el.key) <= maxInlineMapKeySize && el.size <= maxInlineMapElementSize
 //@   ensures err != nil ==> el == nil && categorised(err)
 //@   ensures[C09] forall id SlabID :: old(sto[id]) != nil && old(sto[id]) != valueRoot(key) && old(sto[id]) != valueRoot(value) ==> sto[id] == old(sto[id])
-//@   modifies ghost.sto, ghost.stored, ghost.touched, alloc,
+//@   modifies ghost.sto, ghost.issued, ghost.stored, ghost.touched, alloc,
 //@        as(valueRoot(key), *ArrayDataSlab).header, as(valueRoot(key), *ArrayDataSlab).inlined, as(valueRoot(key), *MapDataSlab).header, as(valueRoot(key), *MapDataSlab).inlined,
 //@        as(valueRoot(value), *ArrayDataSlab).header, as(valueRoot(value), *ArrayDataSlab).inlined, as(valueRoot(value), *MapDataSlab).header, as(valueRoot(value), *MapDataSlab).inlined
 
@@ -170,9 +184,10 @@ package atree
 //@   ensures[C05] err == nil && level == 0 && old(hkFit(e)) ==> hkFit(e)
 //@   ensures[C05] err == nil && level == 0 ==> e.size <= old(e.size) + maxInlineMapElementSize + 8
 //@   ensures err == nil ==> e.size <= old(e.size) + 2000008
+//@   ensures[C18] err != nil ==> categorised(err)
 //@   ensures[C09] forall id SlabID :: old(sto[id]) != nil && old(sto[id]) != valueRoot(key) && old(sto[id]) != valueRoot(value) && !inSub(e, old(sto[id])) ==> sto[id] == old(sto[id])
 //@   modifies ghost.refusals, hkeyElements.*@inSub(e), singleElement.*@inSub(e), inlineCollisionGroup.*@inSub(e), externalCollisionGroup.*@inSub(e), singleElements.*@inSub(e),
-//@        ghost.sto, ghost.stored, ghost.touched, alloc,
+//@        ghost.sto, ghost.issued, ghost.stored, ghost.touched, alloc,
 //@        as(valueRoot(key), *ArrayDataSlab).header, as(valueRoot(key), *ArrayDataSlab).inlined, as(valueRoot(key), *MapDataSlab).header, as(valueRoot(key), *MapDataSlab).inlined,
 //@        as(valueRoot(value), *ArrayDataSlab).header, as(valueRoot(value), *ArrayDataSlab).inlined, as(valueRoot(value), *MapDataSlab).header, as(valueRoot(value), *MapDataSlab).inlined
 //@   loop 1: invariant 0 <= i && i <= j && j <= len(e.hkeys) && equalIndex == -1 && 0 <= lessThanIndex && lessThanIndex <= len(e.hkeys) &&
@@ -212,9 +227,10 @@ package atree
 //@   ensures[C05] err == nil && old(hkFit(e)) ==> hkFit(e)
 //@   ensures[C05] err == nil && old(hkFit(e)) ==> e.size <= old(e.size) + maxInlineMapElementSize
 //@   ensures err == nil ==> e.size <= old(e.size) + 2000000
+//@   ensures[C18] err != nil ==> categorised(err)
 //@   ensures[C09] forall id SlabID :: old(sto[id]) != nil && !inSub(e, old(sto[id])) ==> sto[id] == old(sto[id])
 //@   modifies hkeyElements.*@inSub(e), singleElement.*@inSub(e), inlineCollisionGroup.*@inSub(e), externalCollisionGroup.*@inSub(e), singleElements.*@inSub(e),
-//@        ghost.sto, ghost.stored, ghost.touched, alloc
+//@        ghost.sto, ghost.issued, ghost.stored, ghost.touched, alloc
 //@   loop 1: invariant 0 <= i && i <= j && j <= len(e.hkeys) && equalIndex == -1 &&
 //@        (forall k :: 0 <= k && k < i ==> e.hkeys[k] < hkey) && (forall k :: j <= k && k < len(e.hkeys) ==> e.hkeys[k] > hkey)
 
@@ -271,7 +287,9 @@ package atree
 //@        fresh(e.elems[len(e.elems) - 1]) && ks == e.elems[len(e.elems) - 1].key
 //@   ensures[C02 C13] err == nil && (exists j :: 0 <= j && j < len(old(e.elems)) && keq(key, old(e.elems)[j].key)) ==> e.elems == old(e.elems) && existing != nil
 //@   ensures[C18] err != nil ==> e.elems == old(e.elems) && e.size == old(e.size)
-//@   modifies e.elems, e.size, singleElement.value, singleElement.size, ghost.sto, ghost.stored, ghost.touched, alloc,
+//@   ensures err == nil ==> e.level == old(e.level)
+//@   ensures[C18] err != nil ==> categorised(err)
+//@   modifies e.elems, e.size, singleElement.value, singleElement.size, ghost.sto, ghost.issued, ghost.stored, ghost.touched, alloc,
 //@        as(valueRoot(key), *ArrayDataSlab).header, as(valueRoot(key), *ArrayDataSlab).inlined, as(valueRoot(key), *MapDataSlab).header, as(valueRoot(key), *MapDataSlab).inlined,
 //@        as(valueRoot(value), *ArrayDataSlab).header, as(valueRoot(value), *ArrayDataSlab).inlined, as(valueRoot(value), *MapDataSlab).header, as(valueRoot(value), *MapDataSlab).inlined
 //@   loop 1: invariant 0 <= i && i <= len(e.elems) && e.elems == old(e.elems) && e.size == old(e.size) && (forall j :: 0 <= j && j < i ==> !keq(key, e.elems[j].key)) &&
